@@ -191,5 +191,17 @@ theorem claim_is_stake_neutral_everywhere (w0 w w' : World) (hr : ReachG (clearM
 theorem reward_history_filter_is_the_source (r : List RewardHistory) (a : Denom) :
     Generated.GetIndexByAlliance r a = .ok (histFilterByAlliance r a) := ArithTie.getIndexByAlliance_is_source r a
 
+
+/-- … and at the level of the messages (the statement instantiated on every observed step, `theorem.C13`) -/
+theorem msg_undelegate_settles_the_validator_first (del : Acct) (v : ValId) (dn : Denom) (amt : Int) (w w' : World)
+    (h : step (.undelegate del v dn amt) w = (.ok (), w')) (a : Asset) (hga : getAsset w dn = some a)
+    (hst : rewardsStarted a w.time = true) (hd : ModDelegates w v) :
+    ∃ cs, w.oracle = (v, cs) :: w'.oracle := msgUndelegate_settles del v dn amt w w' h a hga hst hd
+
+theorem msg_redelegate_settles_both_validators_first (del : Acct) (s t : ValId) (dn : Denom) (amt : Int) (w w' : World)
+    (h : step (.redelegate del s t dn amt) w = (.ok (), w')) (a : Asset) (hga : getAsset w dn = some a)
+    (hst : rewardsStarted a w.time = true) (hds : ModDelegates w s) (hdd : ModDelegates w t) :
+    ∃ cs1 cs2, w.oracle = (s, cs1) :: (t, cs2) :: w'.oracle := msgRedelegate_settles del s t dn amt w w' h a hga hst hds hdd
+
 end C13
 end Alliance
